@@ -20,7 +20,7 @@ Init == a \in {x \in Attrs1 \cup Attrs2 : NoDup(AttrKeys(x))} \cup {<<>>} /\ d =
 Next == /\ d = [none |-> TRUE] /\ a' = a
         /\ d' \in (IF a = <<>> THEN {DefaultDialect} ELSE Dials(a))
         /\ n' \in 0..11
-        /\ (n' = (Len(Render(a, d', TRUE, FALSE)) + Len(a)) % 12)       \* one line shape per pair, spread over the menu
+        /\ (n' = (Len(Render(a, d', TRUE, FALSE)) + Len(a)) % 18)       \* one line shape per pair, spread over the menu
         /\ IF Explore THEN (~InG(a, d') \/ (RoundTrip(a, d') /\ (a = <<>> \/ InfersDialect(a, d')))
                             \/ PrintT(ToJson([a |-> a, d |-> d', t |-> Render(a, d', TRUE, FALSE)])))
            ELSE PrintT(ToJson(CaseRecord(n', a, d')))
